@@ -17,6 +17,7 @@ mod util;
 mod c01;
 mod c02;
 mod c03;
+mod c04;
 mod c05;
 mod c06;
 mod c07;
@@ -83,6 +84,7 @@ fn main() {
         "c01" => c01::run(&args, &mut report),
         "c02" => c02::run(&args, &mut report),
         "c03" => c03::run(&args, &mut report),
+        "c04" => c04::run(&args, &mut report),
         "c05" => c05::run(&args, &mut report),
         "c06" => c06::run(&args, &mut report),
         "c07" => c07::run(&args, &mut report),
